@@ -25,7 +25,7 @@ func TestGovcBoundedC19(t *testing.T) {
 	l := lane.NewTestingLane(context.Background())
 	dir := t.TempDir()
 	base := filepath.Join(dir, "snap")
-	want := map[int]int{0: 3, 1: 5, 2: 2}
+	want := map[int]int{0: 3, 5: 5, 9: 2} // sparse indexes: a database must not be filed under its position in some list
 
 	dss := newDataStoreSet(l, base, nil)
 	for idx, n := range want {
